@@ -193,6 +193,11 @@ func (r *BinaryCopyReader) Read(ctx context.Context) (_ []any, err error) {
 	if !r.started {
 		r.started = true
 
+		// NOTE: the copy-in stream starts with the first CopyData message. Bytes
+		// left unread inside the message which started the copy operation are
+		// not part of the stream.
+		r.reader.Msg = nil
+
 		header := len(CopySignature) + 8
 		err = r.fill(header)
 		if err != nil && len(r.reader.Msg) == 0 {
